@@ -4,14 +4,16 @@ Engine B.  Real objects: `shell.define("cmd", inputs=..., outputs={"out": shell.
 keep_extension=...)})`, a real `Job(task, submitter)` on a temp cache root, `Job.inputs`
 (-> template_update / template_update_single / _template_formatting / _element_formatting), the argv
 handed to the environment's execute(), and `ShellOutputs._from_job` (-> `_resolve_value`) for what
-is collected.  Oracle: spec.shell.strictly_inside / template_names (property text + path_template doc).
+is collected.  Oracle: spec.shell.strictly_inside / extension_demand / extension_clause_ok (property text).
 
 Contract per case (template, keep_extension, output type, input values, how `out` is supplied):
   template mode  : every resolved path is strictly inside job.cache_dir; a second, independently built
                    job on another cache root resolves to the same relative name (deterministic function of
-                   the inputs); the name is the formatted template with the input file's extension kept /
-                   dropped as declared (every reading accepted); argv carries exactly that path; the
-                   collected output is that path.
+                   the inputs); where the template references a file input and spells no extension of
+                   its own, the input file's extension is kept / dropped as declared (every reading of
+                   "extension" and of "kept" accepted; the rest of the file name is NOT checked -- the
+                   property does not say it equals the formatted template); argv carries exactly that
+                   path; the collected output is that path.
   explicit mode  : Job.inputs, argv and the collected output carry the supplied path unchanged.
 """
 
@@ -25,10 +27,7 @@ import spec.shell as S
 from props.C22 import Agg, Harness, Runner, chunked
 
 K_DOTS = "template-formats-to-dot-or-dotdot-escapes-job-dir"
-K_PREFIX = "text-before-file-field-dropped"
 K_FMTDOT = "format-spec-dot-taken-for-template-extension"
-K_SPEC = "non-float-format-spec-left-unformatted"
-K_DOTFILE = "dotfile-input-named-after-parent-directory"
 
 FILES = ["data", "data.txt", "data.tar.gz"]
 STRS = ["abc", "ab.cd", "a/b", "..", ".", ""]
@@ -217,20 +216,20 @@ def problems(c, o):
         return bad
     elems = c["values"]["l"] if (c["otype"] == "multi" and "l" in c["values"]) else [None]
     for p, e in zip(o["paths"], elems):
-        if "l" in c["values"] and c["otype"] != "multi":
-            names = None  # a whole list formatted into a single file name: no name is demanded
-        else:
-            names = S.template_names(c["template"], oracle_refs(c, e), c["keep"])
+        refs = oracle_refs(c, e)
         if not S.strictly_inside(p, cd):
             # narrow: the formatted template has no usable last component ('..', '.', '')
-            klass = K_DOTS if names is not None and not names else None
+            whole_list = "l" in c["values"] and c["otype"] != "multi"
+            klass = K_DOTS if (not whole_list and S.no_usable_last_component(c["template"], refs)) else None
             bad.append(("inside", klass, f"resolved path {p} is not strictly inside the job directory {cd}"))
             continue
-        if names:
-            name = os.path.relpath(p, cd)
-            if name not in names:
-                for klass in classify_name(c, e, name) or [None]:
-                    bad.append(("name", klass, f"resolved name {name!r} is not the formatted template (accepted: {sorted(names)})"))
+        if "f" in c["values"]:
+            plain = {n: v for n, v in refs.items() if n != "f"}
+            if S.extension_demand(c["template"], "f", plain):
+                name = os.path.relpath(p, cd)
+                if not S.extension_clause_ok(name, c["values"]["f"], c["keep"]):
+                    verb = "kept" if c["keep"] else "dropped"
+                    bad.append(("extension", classify_extension(c, name), f"keep_extension={c['keep']} but the extension of input file {c['values']['f']!r} is not {verb} in the resolved name {name!r}"))
     rel1 = [os.path.relpath(p, cd) for p in o["paths"]]
     rel2 = [os.path.relpath(p, o["cache_dir2"]) for p in o["paths2"]]
     if rel1 != rel2 or o["paths"] != o["paths_again"]:
@@ -247,38 +246,14 @@ def problems(c, o):
     return bad
 
 
-def classify_name(c, elem, name):
-    """narrow class predicates for a wrong file name -> list of classes ([] = unclassified)"""
-    t, refs = c["template"], oracle_refs(c, elem)
-    # a field reference with a format spec other than the float form `{x:.1f}` (e.g. `{n:03d}`) and the
-    # template text comes back literally, braces included
-    specs = re.findall(r"{\w+:([^{}]*)}", t)
-    if specs and any(not re.fullmatch(r"[0-9.]+f", sp) for sp in specs) and name == t.rsplit("/", 1)[-1]:
-        return [K_SPEC]
-    if not ("f" in refs and "{f}" in t):
-        return []
-    pre = []
-    if refs["f"][1].startswith("."):
-        # a file called '.hidden' is split into name '' + extension 'hidden'; the empty name makes the
-        # input's PARENT DIRECTORY name (the harness keeps input files in a directory called 'in') the stem
-        refs = dict(refs, f=("file", "in" + refs["f"][1]))
-        pre = [K_DOTFILE]
-        if name in S.template_names(t, refs, c["keep"]):
-            return pre
-    last = t.rsplit("/", 1)[-1]
-    before = last[: last.index("{f}")] if "{f}" in last else ""
-    if before:
-        # everything in front of the file field (literal text or another field) is lost: the name is
-        # what the template WITHOUT that prefix gives
-        t2 = t[: len(t) - len(last)] + last[len(before) :]
-        if name in S.template_names(t2, refs, c["keep"]):
-            return pre + [K_PREFIX]
-    # the only dots of the template sit inside format specs ({x:.1f}); keep_extension=True, yet the
-    # input file's extension is dropped as if the template had its own
+def classify_extension(c, name):
+    """narrow class predicate for a violated extension clause: keep_extension=True, the template's only
+    dots sit inside format specs of other fields ({x:.1f}), and the input file's extension is gone"""
+    t = c["template"]
     literal = re.sub(r"{[^{}]*}", "", t)
-    if c["keep"] and "." not in literal and "." in t and name in S.template_names(t, refs, False):
-        return pre + [K_FMTDOT]
-    return []
+    if c["keep"] and "." not in literal and re.search(r"{\w+:[^{}]*\.[^{}]*}", t):
+        return K_FMTDOT
+    return None
 
 
 def _worker(chunk):
@@ -311,8 +286,8 @@ def run(ctx):
         "'a/b', '..', '.', '', ints, floats with/without format spec, lists with MultiOutputFile) x keep_extension on/off x how the output is "
         "supplied (default, True, explicit absolute path, explicit relative path); a real Job on a temp cache root resolves Job.inputs, the argv "
         "handed to execute() and the collected output (ShellOutputs._from_job). Checked: strictly inside job.cache_dir, same relative name from an "
-        "independently built job on another cache root, name = formatted template with the extension kept/dropped as declared (all readings), "
-        "explicit paths carried unchanged."
+        "independently built job on another cache root, the input file's extension kept/dropped as declared where the template spells none of "
+        "its own (all readings; the remainder of the name is not constrained by the property), explicit paths carried unchanged."
     )
     pools = ctx.pick(POOLS, POOLS_THOROUGH)
     allc = list(cases(pools))
